@@ -255,6 +255,37 @@ theorem service_safepoints_hold (hnow : now ≤ maxI64)
       obtain ⟨x, hx, rfl⟩ := (hmem _ _).1 hr
       exact h2 h0 x hx
 
+/-- the cut of the handler at its own write (used to replay requests of different services that are in flight
+    together) is the handler: with nothing in between, pre and post compose to `usp`.  Under
+    `serviceSafePointLock` nothing can come in between. -/
+theorem usp_split :
+    usp gc t svc ttl sp now failAt =
+      match uspPre gc t svc ttl sp now failAt with
+      | .fin t' o => (t', o)
+      | .save t2 w2 min e => uspPost gc t2 w2 min e now := by
+  unfold usp uspPre
+  cases hr : uspRemove gc t svc ttl { failAt := failAt } with
+  | error e => rfl
+  | ok p =>
+    obtain ⟨t1, w1⟩ := p
+    simp only [uspLoad]
+    generalize loadMin gc now t1 w1 = r
+    obtain ⟨t2, w2, res⟩ := r
+    cases res with
+    | error e => rfl
+    | ok min =>
+      simp only [uspSave, uspPost, okOut]
+      by_cases hc : ttl > 0 ∧ sp ≥ min.sp
+      · simp only [hc, and_self, if_true]
+        by_cases h1 : svc = ""
+        · simp [h1]
+        · simp only [h1, if_false]
+          by_cases h2 : svc = gc ∧ (newEntry svc ttl sp now).exp ≠ maxI64
+          · rw [if_pos h2, if_pos h2]
+          · rw [if_neg h2, if_neg h2]
+            cases hv : validId svc <;> simp [newEntry]
+      · simp [hc]
+
 /-- structure obligation: UpdateServiceGCSafePoint holds `serviceSafePointLock` for its whole body (one
     request = one step of the model) -/
 theorem service_update_is_one_section :
